@@ -104,6 +104,7 @@ def _cases(draw, tier):
     case["ctor"] = draw(st.sampled_from(["api", "api", "cli"]))
     case["linkflag"] = case["method"] == "copy" and draw(st.booleans())
     case["verbose"] = draw(st.booleans())  # progress reports on stdout: must not change what is mirrored
+    case["relhandler"] = draw(st.integers(0, 4)) == 0
     case["aged"] = draw(st.integers(0, 2)) == 0  # the source files carry old modification times (a backlog from yesterday)
     return case
 
@@ -523,6 +524,25 @@ def _run(case, res, base, stage, src, dest, ev, drf, list_drf, mirror):
                                              include_drf=case["include_drf"], include_dmd=case["include_dmd"],
                                              verbose=bool(case.get("verbose")), **({"link": True} if case.get("linkflag") else {}))
         handlers = mir.event_handlers
+        if case.get("relhandler") and case.get("ctor") != "cli" and case["method"] in ("copy", "move"):
+            # an application that builds the (public) mirror handlers itself, naming source and destination relative to
+            # its current directory - and changes directory afterwards; events carry absolute paths as observers deliver them
+            res.cls("handlers-built-from-relative-paths")
+            cwd0 = os.getcwd()
+            os.chdir(os.path.dirname(src))
+            try:
+                rs, rd_ = os.path.relpath(src), os.path.relpath(dest)
+                kw_ = dict(verbose=bool(case.get("verbose")), starttime=start, endtime=end)
+                new_h = [mirror.DigitalRFMirrorHandler(rs, rd_, mirror_fun=shutil.copy2, include_drf=case["include_drf"] and case["method"] == "copy",
+                                                       include_dmd=case["include_dmd"], include_drf_properties=case["include_drf"],
+                                                       include_dmd_properties=case["include_dmd"], **kw_)]
+                if case["include_drf"] and case["method"] == "move":
+                    new_h.append(mirror.DigitalRFMirrorHandler(rs, rd_, mirror_fun=shutil.move, include_drf=True, include_dmd=False,
+                                                               include_drf_properties=False, include_dmd_properties=False, **kw_))
+                handlers = new_h + [h_ for h_ in handlers if not isinstance(h_, mirror.DigitalRFMirrorHandler)]
+                mir.event_handlers = handlers
+            finally:
+                os.chdir(cwd0)
         processed = set()  # relpaths whose (latest) events reached the mirror
         history = []  # final-name relpaths reported so far
 
